@@ -184,6 +184,12 @@ impl NonOwningDecoder {
                 if (b == 0x1b && *num_init_seq_bytes < 4) || (b == 0x01 && *num_init_seq_bytes >= 4)
                 {
                     *num_init_seq_bytes += 1;
+                } else if b == 0x1b {
+                    // a mismatching 0x1b may itself belong to a start sequence: after five or
+                    // more 0x1b bytes the last four still match, otherwise it is the first one
+                    let num_kept: u8 = if *num_init_seq_bytes == 4 { 4 } else { 1 };
+                    *num_discarded_bytes += 1 + usize::from(*num_init_seq_bytes - num_kept);
+                    *num_init_seq_bytes = num_kept;
                 } else {
                     *num_discarded_bytes += 1 + usize::from(*num_init_seq_bytes);
                     *num_init_seq_bytes = 0;
